@@ -178,6 +178,9 @@ class NsHandler:
             return None
         prefix, suffix = name.split(":", 1)
         prefix = prefix.strip().lower()
+        if self._find_namespace(prefix)[0]:
+            # a namespace of this wiki wins over an interwiki prefix of the same name ("Wikipedia:")
+            return None
         data = self.prefix2interwiki.get(prefix)
         if data is None:
             return None
